@@ -74,6 +74,19 @@ def case_st(draw, mode):
                 elems.append({'k': k, 'angles': elems[j]['angles'], 'same_as': j})
             else:
                 elems.append({'k': k, 'angles': draw(angles_st(shape))})
+        if draw(st.integers(0, 5)) == 0:
+            # two rotations that ALMOST cancel: large angles (accumulated HWP angle) differing by a few 1e-6 relative
+            base = draw(st.lists(st.floats(2000, 6000, allow_nan=False, width=32), min_size=1, max_size=1))[0]
+            base = base * draw(st.sampled_from([1, -1]))
+            other = float(np.float32(base * (1 + draw(st.sampled_from([4e-6, -4e-6, 8e-6])))))
+            pair = [{'k': 'rot', 'angles': base}, {'k': 'rotT', 'angles': other}]
+            if draw(st.booleans()):
+                pair = [{'k': 'rotT', 'angles': base}, {'k': 'rot', 'angles': other}]
+            pos_ = draw(st.integers(0, len(elems)))
+            elems[pos_:pos_] = pair
+            for e_ in elems:
+                if 'same_as' in e_ and e_['same_as'] >= pos_:
+                    e_['same_as'] += 2
         pol = draw(st.booleans())
         return {'what': 'chain', 'kind': kind, 'shape': shape, 'dtype': dt, 'adtype': adt, 'elems': elems, 'pol': pol,
                 'seed': seed, 'np_angles': np_angles}
@@ -239,6 +252,7 @@ def check(recipe, mode):
     kw = {}
     if ang is not None:
         kw['angles'] = arr(ang)
+        pristine = np.array(np.asarray(kw['angles']), copy=True)
     npdt = np.float32 if dt == 'float32' else np.float64
     if recipe['what'] == 'hwp_create':
         op = must_not_raise('HWPOperator.create', HWPOperator.create, shape, npdt, kind, **kw)
@@ -259,6 +273,14 @@ def check(recipe, mode):
     red = must_not_raise('factory-reduce', op.reduce)
     _compare(must_not_raise('factory-reduced-mv', red.mv, x), want, out_kind, tol_for(elems) * 2, 'factory-reduced-value:' + recipe['what'])
     _compare(must_not_raise('factory-mv', op.mv, x), want, out_kind, tol_for(elems), 'factory-value-after-reduce:' + recipe['what'])
+    if ang is not None:
+        # the caller's angle array is used again for another operator: it still holds the caller's angles
+        again = must_not_raise('QURotationOperator.create', QURotationOperator.create, shape, npdt, kind, angles=kw['angles'])
+        _compare(must_not_raise('factory-mv', again.mv, x), apply_ref([{'k': 'rot', 'angles': ang}], kind, comps, adt), kind,
+                 tol_for([{'k': 'rot', 'angles': ang}]), 'angles-reused-after:' + recipe['what'])
+        if not np.array_equal(np.asarray(kw['angles']), pristine):
+            raise Violation('angles-modified-by:' + recipe['what'], 'the angle array passed to the factory was modified in place')
+        classes.append('angles_reused')
     generic = ang is not None and np.any(np.abs(np.mod(np.asarray(ang, dtype=float), math.pi / 4)) > 1e-3)
     classes += ['factory:' + recipe['what'], 'with_angles' if ang is not None else 'without_angles']
     return {'nontrivial': bool(kind != 'I' and generic), 'classes': classes}
